@@ -98,3 +98,42 @@ def describe(ev):
     if ev['op'] == 'vector':
         d['out'] = txt(ev['out'])
     return d
+
+
+# which recorded-call rejections belong to which property (the reason strings of spec/Trace.tla!Why)
+WHY_PROP = {
+    'accept/reject differs from the grammar': 'C01',
+    'parsed object differs from the vector text': 'C06',
+    'Set accepts/refuses differently': 'C09',
+    'Get accepts/refuses differently': 'C09',
+    'Set error value differs': 'C18',
+    'Get error value differs': 'C18',
+    'object after Set differs': 'C07',
+    'Get value differs': 'C07',
+    'Get changed the object': 'C07',
+    'Vector() is not the canonical string': 'C08',
+    'Vector() changed the object': 'C14',
+    'scoring changed the object': 'C14',
+    'object changed between two of its own calls': 'C14',
+    'rating differs from the scale': 'C15',
+    'nomenclature differs': 'C16',
+}
+
+
+def api_traces(ctx, prop, n):
+    """general API recorder (byte-level mutants of real vectors, random Set histories, all versions), validated by
+    Trace.tla; only the rejections that concern `prop` are returned as violations, the rest is counted."""
+    viol, st = record_and_validate(ctx, 'API', n=n)
+    mine, other = [], 0
+    for v in viol:
+        why = v['kind'].split(': ', 1)[1]
+        p = WHY_PROP.get(why)
+        if why == 'score differs from the specification':
+            p = {'2.0': 'C05', '3.0': 'C03', '3.1': 'C03', '4.0': 'C04'}[v['version']]
+        if p == prop:
+            v['property'] = prop
+            mine.append(v)
+        else:
+            other += 1
+    st['rejections_belonging_to_other_properties'] = other
+    return mine, st
